@@ -75,7 +75,9 @@ def shard(shard_no, nshards, seed, tier, extra):
     # their neighbours
     edge = [inv[0], inv[1], inv[9998], inv[9999]] + [keccak.keccak_words(i) for i in (10000, 10001, 12345, 65536, 1 << 64)]
     edge += [(h + dlt) & evm.M256 for h in (inv[9999], keccak.keccak_words(10000)) for dlt in (1, -1)]
-    B = evm.boundary_constants() + sorted(table)[:6] + edge + edge
+    from vlib import layoutgen
+    alias = layoutgen.aliasing_pool(rng) + layoutgen.aliasing_pool(rng)   # keys agreeing in their low / high bits
+    B = evm.boundary_constants() + sorted(table)[:6] + edge + edge + alias + alias
     n = 330 if tier == "quick" else 18000
     d = common.Driver("rel", shim=False)
     contracts = common.corpus_codes(4000 if tier == "quick" else None)
